@@ -33,7 +33,7 @@ class Ghost:
           [f"ra_{k}" for k in CLASSES]
     REAL = ["slept_total", "now", "post_sleep_elapsed", "last_elapsed", "last_elapsed_t", "strat_arg_remaining",
             "last_sleep_arg", "last_retry_sleep", "term_sleep", "handler_arg_s", "bs_arg_s", "strat_arg_prev",
-            "strat_ret_v", "remaining_at_decision"]
+            "strat_ret_v", "remaining_at_decision", "post_sleep_t"]
     BOOL = ["polled", "aborted", "nonretry_seen", "need_post_sleep_read", "term_reason_none", "term_class_none",
             "term_exc_none", "term_cause_none", "strat_arg_prev_none", "last_fail_valid", "bs_before_sleeper",
             "abort_raised_by_op", "deferred", "handler_aborted", "last_op_was_failure"]
@@ -94,6 +94,45 @@ class Ghost:
 
     def inc(self, k, by=1):
         self[k] = self.v[k] + by
+
+
+def tr(v):
+    """canonical, comparable form of a value for interaction traces"""
+    if v is None or isinstance(v, (str, bool, int, float)):
+        return v
+    if isinstance(v, z3.ExprRef):
+        return v
+    if isinstance(v, Sym):
+        return v.t
+    if isinstance(v, SFloat):
+        return (v.k, v.v)
+    if isinstance(v, SOpt):
+        return ("opt", v.none, tr(v.val))
+    if isinstance(v, EnumVal):
+        return v.t
+    if isinstance(v, (Obj, EnvFn)):
+        return v.ident
+    if isinstance(v, Ref):
+        return v.t
+    if isinstance(v, TimeDelta):
+        return v.s
+    if isinstance(v, (tuple, list)):
+        return tuple(tr(x) for x in v)
+    return repr(type(v))
+
+
+def same_tr(a, b):
+    if isinstance(a, z3.ExprRef) and isinstance(b, z3.ExprRef):
+        return a.eq(b)
+    if isinstance(a, tuple) and isinstance(b, tuple):
+        return len(a) == len(b) and all(same_tr(x, y) for x, y in zip(a, b))
+    if isinstance(a, z3.ExprRef) or isinstance(b, z3.ExprRef):
+        return False
+    return a == b
+
+
+def trace(it, tag, *vals):
+    it.path.trace.append((tag, tuple(tr(v) for v in vals)))
 
 
 def G(it) -> Ghost:
@@ -256,6 +295,12 @@ def on_invocation(it):
     p.oblige(f"{fk}/C02/eps/post-sleep-deadline-check-before-attempt",
              z3.Implies(later, z3.And(z3.Not(g["need_post_sleep_read"]),
                                       g["post_sleep_elapsed"] <= w.deadline.s)), prop="C02")
+    # the same clause read literally in real seconds (no clock granularity): fails inside the 1us band - finding F6
+    st = w.state
+    if st is not None:
+        start = term(st.fields["start_mono"])
+        p.oblige(f"{fk}/C02/exact/no-attempt-once-more-than-deadline_s-elapsed",
+                 z3.Implies(later, g["post_sleep_t"] - start <= w.deadline_s), prop="C02")
     # C13: abort_if polled since the last attempt/sleep; no abort pending
     p.oblige(f"{fk}/C13/abort_if-polled-before-attempt", z3.Implies(z3.Not(w.abort_if.none), g["polled"]), prop="C13")
     p.oblige(f"{fk}/C13/no-attempt-after-abort", z3.Not(g["aborted"]), prop="C13")
@@ -271,6 +316,11 @@ def on_sleep(it, s):
     sf = to_sfloat(s)
     p.oblige(f"{fk}/C02/sleep-finite-nonnegative", z3.And(sf.k == FIN, sf.v >= 0), prop="C02")
     p.oblige(f"{fk}/C02/eps/sleep<=remaining-at-decision", z3.Implies(sf.k == FIN, sf.v <= g["remaining_at_decision"]), prop="C02")
+    st = w.state
+    if st is not None:
+        start = term(st.fields["start_mono"])
+        p.oblige(f"{fk}/C02/exact/sleep<=time-then-remaining",
+                 z3.Implies(sf.k == FIN, sf.v <= w.deadline_s - (g["last_elapsed_t"] - start)), prop="C02")
     p.oblige(f"{fk}/C13/abort_if-polled-before-sleep", z3.Implies(z3.Not(w.abort_if.none), g["polled"]), prop="C13")
     p.oblige(f"{fk}/C13/no-sleep-after-abort", z3.Not(g["aborted"]), prop="C13")
     p.oblige(f"{fk}/C14/no-sleep-after-terminal-event", g["n_term"] == 0, prop="C14")
@@ -284,8 +334,10 @@ def on_sleep(it, s):
 # ---------------------------------------------------------------------------------------------
 #  environment models (assumed contracts)
 # ---------------------------------------------------------------------------------------------
-def m_func(it, fn, args, kwargs, node):
-    w, g = W(it), G(it)
+def begin_invocation(it):
+    """the operation is being invoked: property monitors + ghost bookkeeping"""
+    g = G(it)
+    trace(it, "func")
     on_invocation(it)
     g.inc("inv")
     g["polled"] = False
@@ -294,6 +346,11 @@ def m_func(it, fn, args, kwargs, node):
     g["sleeps_attempt"] = 0
     g["bs_calls_attempt"] = 0
     g["term_count_at_last_attempt"] = g["n_term"]
+
+
+def m_func(it, fn, args, kwargs, node):
+    w, g = W(it), G(it)
+    begin_invocation(it)
 
     def outcome(node_=None):
         advance_clock(it)
@@ -317,6 +374,7 @@ def m_func(it, fn, args, kwargs, node):
 
 def m_abort_if(it, fn, args, kwargs, node):
     g = G(it)
+    trace(it, "abort_if")
     g["polled"] = True
     g.inc("polls")
     b = fbool("abort")
@@ -327,6 +385,7 @@ def m_abort_if(it, fn, args, kwargs, node):
 
 def m_classifier(it, fn, args, kwargs, node):
     g = G(it)
+    trace(it, "classifier", args[0])
     c = it.path.choose(3, "classifier")
     if c == 2:
         env_raise(it, "classifier")
@@ -341,6 +400,7 @@ def m_classifier(it, fn, args, kwargs, node):
 
 
 def m_result_classifier(it, fn, args, kwargs, node):
+    trace(it, "result_classifier", args[0])
     c = it.path.choose(4, "result_classifier")
     if c == 3:
         env_raise(it, "result_classifier")
@@ -359,6 +419,8 @@ def m_result_classifier(it, fn, args, kwargs, node):
 def m_strategy(it, fn, args, kwargs, node):
     g = G(it)
     ctx = args[0]
+    trace(it, "strategy", fn, ctx.fields["attempt"], ctx.fields["classification"], ctx.fields["prev_sleep_s"],
+          ctx.fields["remaining_s"], ctx.fields["cause"])
     g.inc("strat_calls_attempt")
     g["strat_fn"] = fn.ident
     g["strat_ctx_ident"] = ctx.ident
@@ -384,6 +446,7 @@ def m_sleep_fn(it, fn, args, kwargs, node):
     g, w = G(it), W(it)
     fk = it.frames[0].func.key if it.frames and it.frames[0].func else "runner"
     ctx, s = args[0], args[1]
+    trace(it, "sleep_fn", fn, ctx, s)
     it.path.oblige(f"{fk}/C16/handler-consulted-once-per-retry", g["handler_calls_attempt"] == 0, prop="C16")
     sf = to_sfloat(s)
     it.path.oblige(f"{fk}/C16/handler-receives-computed-delay", z3.And(sf.k == FIN, sf.v == g["last_retry_sleep"]), prop="C16")
@@ -410,6 +473,7 @@ def m_before_sleep(it, fn, args, kwargs, node):
     g, w = G(it), W(it)
     fk = it.frames[0].func.key if it.frames and it.frames[0].func else "runner"
     ctx, s = args[0], args[1]
+    trace(it, "before_sleep", fn, ctx, s)
     sf = to_sfloat(s)
     it.path.oblige(f"{fk}/C16/before_sleep-receives-computed-delay", z3.And(sf.k == FIN, sf.v == g["last_retry_sleep"]), prop="C16")
     it.path.oblige(f"{fk}/C16/before_sleep-before-sleeper", g["sleeps_attempt"] == 0, prop="C16")
@@ -426,7 +490,7 @@ def m_before_sleep(it, fn, args, kwargs, node):
             env_raise(it, "before_sleep")
         return None
 
-    if w.is_async and it.path.choose(2, "before_sleep-awaitable") == 1:
+    if w.is_async and not getattr(w, "twin", False) and it.path.choose(2, "before_sleep-awaitable") == 1:
         return AwaitableV(outcome)
     return outcome()
 
@@ -441,6 +505,7 @@ class AwaitableV:
 def m_sleeper(it, fn, args, kwargs, node):
     g, w = G(it), W(it)
     s = args[0]
+    trace(it, "sleep", fn, s)
     on_sleep(it, s)
     sf = to_sfloat(s)
     g.inc("sleeps")
@@ -456,13 +521,16 @@ def m_sleeper(it, fn, args, kwargs, node):
         advance_clock(it, by=sf.v)  # assumed: a sleeper advances the monotonic clock by at least its argument
         return None
 
-    if w.is_async and (fn is None or it.path.choose(2, "sleeper-awaitable") == 1):
+    if w.is_async and (fn is None or (not getattr(w, "twin", False) and it.path.choose(2, "sleeper-awaitable") == 1)):
         return AwaitableV(outcome)
     return outcome()
 
 
 def m_attempt_hook(it, fn, args, kwargs, node):
     # attempt hooks: arbitrary side effects outside the library, assumed non-raising at runner level
+    c = args[0]
+    trace(it, "attempt_hook", fn, c.fields["attempt"], c.fields["decision"], c.fields["stop_reason"], c.fields["cause"],
+          c.fields["sleep_s"], c.fields["exception"], c.fields["result"], c.fields["classification"])
     advance_clock(it)
     return None
 
@@ -520,14 +588,8 @@ def install_env(it):
     def call_with_timeout(it_, fv, args, kwargs, node):
         f = args[0]
         if it_.path.choose(2, "timeout") == 1:
-            on_invocation(it_)  # the operation was started
+            begin_invocation(it_)  # the operation was started
             g = G(it_)
-            g.inc("inv")
-            g["polled"] = False
-            g["strat_calls_attempt"] = 0
-            g["handler_calls_attempt"] = 0
-            g["sleeps_attempt"] = 0
-            g["bs_calls_attempt"] = 0
             advance_clock(it_)
             e = it_.make_exc("TimeoutError")
             e.ident = z3.Int(fresh_name("timeout_exc"))
